@@ -3,42 +3,69 @@ import re
 
 ### Option 1 ###
 
-_rewrite_symbols = {
-    # Valid OSC address symbols with re meaning BEFORE special symbols rewrite.
-    '(': '\(',
-    ')': '\)',
-    '^': '\^',
-    '.': '\.',
-    '$': '\$',
-    '+': '\+',
-    '|': '\|',
-    '\\': '\\\\',
-
-    # OSC special symbols (are invalid or special OSC Address symbols).
-    '{': '(?:',
-    ',': '|',
-    '}': ')',
-    '*': '.*',  # BUG: # lo ignora el * si luego viene ?, [, { o literal, por ejemplo: '/*bc'.matchOSCAddressPattern('/abc') es false y re.match('.bc', 'abc') devuelve match. Está en el párrafo anterior al cuadro en la especificación, dice que cada caracter de pattern debe coincidir con el próximo substring de address Y que todo caracter en address debe ser emparejado con algo de pattern.
-    # '[': '[',  # Same.
-    # '-': '-',  # Same behaviour inside/outside brackets.
-    '[!': '[^',
-    # ']': ']',  # Same.
-    '-]': ']', # Discard '-' before closing bracket.
-    '?': '.'
-}
-
-
-_rewrite_pattern = re.compile(
-    '(' + '|'.join(re.escape(x) for x in _rewrite_symbols.keys()) + ')')
-
-
-def _rewrite_func(match):
-    return _rewrite_symbols[match.group(0)]
+def _part_to_regex(part):
+    # Translates one part (the text between slashes) of an OSC address
+    # pattern to a regular expression, returns None if it is malformed.
+    res = ''
+    i = 0
+    while i < len(part):
+        c = part[i]
+        if c == '*':
+            res += '.*'
+        elif c == '?':
+            res += '.'
+        elif c == '[':
+            j = part.find(']', i + 1)
+            if j < 0:
+                return None
+            body = part[i + 1:j]
+            negate = body.startswith('!')
+            if negate:
+                body = body[1:]
+            chars = ''
+            k = 0
+            while k < len(body):
+                if k + 2 < len(body) and body[k + 1] == '-':  # Range.
+                    if body[k] <= body[k + 2]:
+                        chars += (
+                            re.escape(body[k]) + '-' + re.escape(body[k + 2]))
+                    k += 3
+                else:  # '-' at the end and '!' elsewhere are literals.
+                    chars += re.escape(body[k])
+                    k += 1
+            if chars:
+                res += ('[^' if negate else '[') + chars + ']'
+            else:
+                res += '.' if negate else '(?!)'
+            i = j
+        elif c == '{':
+            j = part.find('}', i + 1)
+            if j < 0:
+                return None
+            res += '(?:'
+            res += '|'.join(re.escape(x) for x in part[i + 1:j].split(','))
+            res += ')'
+            i = j
+        else:
+            res += re.escape(c)
+        i += 1
+    return res
 
 
 def osc_rematch_pattern(pattern, address):
-    pattern = re.sub(_rewrite_pattern, _rewrite_func, pattern)
-    return re.match(pattern, address) is not None
+    # OSC 1.0: pattern and address must have the same number of parts and
+    # each part of the pattern must match the whole corresponding part of
+    # the address ('?' and '*' don't match '/'). Malformed patterns don't
+    # match anything.
+    pattern = pattern.split('/')
+    address = address.split('/')
+    if len(pattern) != len(address):
+        return False
+    for ppart, apart in zip(pattern, address):
+        regex = _part_to_regex(ppart)
+        if regex is None or re.fullmatch(regex, apart, re.DOTALL) is None:
+            return False
+    return True
 
 
 ### Option 2 ###
